@@ -134,6 +134,29 @@
         }
     }
 
+    /// C05: resize() re-establishes the bound for the NEW capacity (growing and shrinking), shares sum to the capacity
+    fn resize_reestablishes_bound(found: &mut Vec<String>) {
+        for (shards, from, to) in [(1usize, 1usize, 2usize), (1, 4, 2), (3, 3, 7), (2, 8, 3)] {
+            let cache: RawCache<Fifo<u64, u64, TestProperties>, ModHasher, HashTableIndexer<Fifo<u64, u64, TestProperties>>> = RawCache::new(RawCacheConfig {
+                capacity: from, shards, eviction_config: FifoConfig::default(), hash_builder: Default::default(),
+                weighter: Arc::new(|_, _| 1), filter: Arc::new(|_, _| true), event_listener: None, metrics: Arc::new(Metrics::noop()),
+            });
+            for k in 0..(from as u64 * 4) { cache.insert(k, k); }
+            let before = cache.usage();
+            cache.resize(to).unwrap();
+            if cache.usage() > to || (to >= from && cache.usage() != before) {
+                found.push(format!("WITNESS bound_reestablished_for_new_capacity :: fifo shards={shards}: fill at capacity {from} (usage {before}); resize({to}) => usage {}", cache.usage()));
+                return;
+            }
+            // ModHasher: key k lives in shard k % shards; fill every shard well beyond its share
+            for k in 100..(100 + to as u64 * 8) { cache.insert(k, k); }
+            if cache.usage() != to {
+                found.push(format!("WITNESS capacity_updated :: fifo shards={shards}: capacity {from}; resize({to}); {} more inserts spread over all shards => usage {} (expected the new capacity {to})", to * 8, cache.usage()));
+                return;
+            }
+        }
+    }
+
     #[test]
     fn verif_witness_shard() {
         let seed: u64 = std::env::var("VERIF_SEED").ok().and_then(|s| s.parse().ok()).unwrap_or(0);
@@ -145,6 +168,7 @@
             if f.is_empty() { run::<Lru<u64, u64, TestProperties>>("lru", LruConfig::default(), seed.wrapping_add(2), &mut f); }
             if f.is_empty() { pinned_by_lookup(&mut f); }
             if f.is_empty() { phantom_leaves_once(&mut f); }
+            if f.is_empty() { resize_reestablishes_bound(&mut f); }
             f
         });
         match r {
